@@ -1,17 +1,30 @@
 ------------------------------ MODULE Trace_C05 -----------------------------
 (* (T) for C05: each recorded shape (bounding box, points() sequence,         *)
 (* contains() probes) is checked against P_C05.                               *)
-EXTENDS TraceBase, P_C05
-VARIABLE l
-Init == l = 1
-StepCase(e)  == e.ev = "case"
-StepShape(e) == e.ev = "shape" /\ Report(e.case, ShapeFails(e), [bbox |-> e.bbox, np |-> e.np, nc |-> e.nc])
+EXTENDS TraceBase, P_C05, EGCurve
+VARIABLES l, cur      \* cur = descriptor of the current case (for the drift comparison)
+Init == l = 1 /\ cur = [k |-> "none"]
+StepCase(e)  == e.ev = "case" /\ cur' = e.desc
+\* DRIFT: contains() of small circles / ellipses / rounded rectangles vs the transcribed hit tests of EGCurve
+\* (binds MC_C05 / MC_C05r / MC_C06 / MC_C18, which explore those transcriptions, to the code)
+TranscribedRuns(e) ==
+  LET g == Grow(e.bbox, 2)
+      S == { p \in PointsOf(g) :
+               CASE cur.k = "circle"  -> CircleContainsT(cur.tl, cur.d, p)
+                 [] cur.k = "ellipse" -> EllipseContainsT(cur.tl, cur.size, p)
+                 [] OTHER             -> RRContainsT(cur.r, cur.radii, p) }
+  IN RunsOfSet(S, g)
+Small(e) == e.bbox[3] <= 14 /\ e.bbox[4] <= 14
+StepShape(e) == /\ e.ev = "shape" /\ UNCHANGED cur
+                /\ Report(e.case, ShapeFails(e), [bbox |-> e.bbox, np |-> e.np, nc |-> e.nc])
+                /\ DriftReport(e.case, cur.k \notin {"circle", "ellipse", "rrect"} \/ ~Small(e) \/ e.cr = TranscribedRuns(e),
+                               "contains_transcription", [k |-> cur.k, bbox |-> e.bbox])
 \* a library call of this case panicked: the property promises a result for every input of its domain
-StepPanic(e) == e.ev = "panic" /\ Report(e.case, {"library_call_panicked"}, [msg |-> e.msg, loc |-> e.loc])
+StepPanic(e) == e.ev = "panic" /\ UNCHANGED cur /\ Report(e.case, {"library_call_panicked"}, [msg |-> e.msg, loc |-> e.loc])
 Next == /\ l <= NRec
         /\ LET e == Rec[l] IN StepCase(e) \/ StepShape(e) \/ StepPanic(e)
         /\ l' = l + 1
-Spec == Init /\ [][Next]_l
+Spec == Init /\ [][Next]_<<l, cur>>
 Done == IF TLCGet("stats").diameter = NRec + 1
         THEN PrintT("TRACE-ACCEPTED " \o ToString(NRec))
         ELSE PrintT("TRACE-REJECTED at line " \o ToString(TLCGet("stats").diameter)) /\ FALSE
